@@ -1,5 +1,6 @@
 import IceTie.AgentRole
 import IceProofs.AgentC05
+import IceProofs.Sys2C05
 /-!
 # C05 — role conflicts resolve by tie-breaker (single-agent clauses)
 
@@ -300,5 +301,279 @@ example : (resolveSource { exAgent with cfg := { blockedIPs := [13] } } exL 208 
 example : quiet exAgent [.inbound 5 16 176 (exConflict 9), .advance 300000000, .inbound 6 16 176 (exConflict 9)] = true := by
   decide
 example : quiet exAgent [.inbound 5 16 176 (exConflict 3)] = false := by decide
+
+end IceProps.C05
+
+/-! # The two-agent consequence: same-role starts end in opposite roles (closed system `Sys2`)
+
+Restatements of the theorems proved in `IceProofs.Sys2C05` (invariant over what is in flight, closure under every
+system event).  System: `IceProofs.Sys2Run` — two `AgentCore` agents and the datagram hub of `IceModel.Sys2`; an agent
+receives `inbound` / `inboundData` / `advance` only through the hub; the application may call any API event of either
+agent at any time.  Every theorem quantifies over ALL initial states with `Sys.Init` (fresh agents, nothing in flight;
+configurations, credentials, tie-breakers, NAT mapping, reachability matrix arbitrary) with DISTINCT tie-breakers, and
+over ALL schedules = arbitrary `List SysEv` (API calls of both agents incl. `restart`, `close`, late `start`;
+deliveries in any order, duplications, drops, clock advances).
+
+"Started in role r" is the API event `.start now r ru rp`; it takes effect at most once per agent (`started` is never
+reset — `step_started`), `.restart` keeps the role (`resetSelector` does not touch `controlling`), so after its start an
+agent's role changes only by a lost role conflict (`C05_switch_only_by_conflict`).
+
+`W s0` = the agent with the larger tie-breaker, `L s0` the other (`false` = agent A, `true` = agent B).
+
+Schedule hypothesis `NoLoopbackCreds s0 evs X` (decidable; needed for `X = L s0` only): agent `X` is never handed one of
+its own local passwords as the remote password.  Without it the statement about `L` is FALSE in the model
+(`C05_orientation_stable_needs_NoLoopbackCreds_witness`): a controlled agent whose own ICE-CONTROLLED request is delivered
+back to it and authenticates compares `own < own`, which is false, and switches to controlling.  The USERNAME test alone
+does not exclude this (`"a:a"` / `"a"`: `ru ++ ":" ++ lu = lu ++ ":" ++ ru` with `lu ≠ ru`), the MESSAGE-INTEGRITY key does.
+
+Not proved (needs fair delivery, checked by the spec monitor at `mark fairend`): that the agent in the wrong role
+EVENTUALLY processes such a request.
+-/
+namespace IceProps.C05
+open IceModel IceModel.AgentCore IceModel.Sys2 IceProofs.Agent IceProofs.Sys2Run IceProofs.Sys2C05
+
+/-- the agent holding the larger tie-breaker (`false` = A, `true` = B) … -/
+abbrev W (s0 : Sys) : Bool := winner s0
+/-- … and the other one -/
+abbrev L (s0 : Sys) : Bool := !winner s0
+
+/-- started, and in the given role -/
+def StartedAs (a : Agent) (controlling : Bool) : Prop := a.started = true ∧ a.controlling = controlling
+
+instance (a : Agent) (c : Bool) : Decidable (StartedAs a c) := by unfold StartedAs; infer_instance
+
+theorem right_W (s0 s : Sys) : Right (W s0) (W s0) s ↔ StartedAs (s.agent (W s0)) true := Right_winner _ _
+theorem right_L (s0 s : Sys) : Right (W s0) (L s0) s ↔ StartedAs (s.agent (L s0)) false := Right_loser _ _
+
+/-- `W` really holds the larger tie-breaker, and tie-breakers never change along any schedule. -/
+theorem C05_winner_tiebreaker (s0 : Sys) (hinit : Sys.Init s0) (hne : s0.a.tieBreaker ≠ s0.b.tieBreaker)
+    (evs : List SysEv) :
+    ((Sys.runs s0 evs).agent (L s0)).tieBreaker < ((Sys.runs s0 evs).agent (W s0)).tieBreaker ∧
+    ∀ X, ((Sys.runs s0 evs).agent X).tieBreaker = (s0.agent X).tieBreaker := by
+  refine ⟨?_, reach_tieBreaker hinit evs⟩
+  rw [reach_tieBreaker hinit evs, reach_tieBreaker hinit evs]
+  exact winner_lt s0 hne
+
+/-- What is on the wire: in every reachable state, every in-flight STUN message that carries a role attribute carries
+the tie-breaker of one of the two agents — its sender — and is keyed with a remote password of that agent. -/
+theorem C05_inflight_roles_name_sender (s0 : Sys) (hinit : Sys.Init s0) (evs : List SysEv) :
+    ∀ d ∈ (Sys.runs s0 evs).inflight, ∀ m, d.p = .stun m → ∀ c t, m.role = some (c, t) →
+      ∃ X : Bool, t = (s0.agent X).tieBreaker ∧ ∃ p, p ∈ remotePwds s0 evs X ∧ m.key = some p :=
+  reach_inflight hinit evs
+
+/-- **Orientation is stable.**  Along every schedule: once `W` is started and controlling it stays started and
+controlling for ever (no hypothesis on credentials, hairpinned own requests included); once `L` is started and
+controlled it stays so for ever, provided `L` is never handed its own password as remote password. -/
+theorem C05_orientation_stable (s0 : Sys) (hinit : Sys.Init s0) (hne : s0.a.tieBreaker ≠ s0.b.tieBreaker)
+    (evs1 evs2 : List SysEv) :
+    (StartedAs ((Sys.runs s0 evs1).agent (W s0)) true →
+      StartedAs ((Sys.runs (Sys.runs s0 evs1) evs2).agent (W s0)) true) ∧
+    (NoLoopbackCreds s0 (evs1 ++ evs2) (L s0) →
+      StartedAs ((Sys.runs s0 evs1).agent (L s0)) false →
+      StartedAs ((Sys.runs (Sys.runs s0 evs1) evs2).agent (L s0)) false) := by
+  have h := orientation_stable s0 hinit hne evs1 evs2
+  simp only [right_W, right_L] at h
+  exact h
+
+/-- `conflictDelivery s k Y` (the decidable predicate used below) unfolded: datagram `k` is in flight, the network
+does not drop it, agent `Y` listens at its (un-NATed) destination, and the event it becomes at `Y` is an authenticated
+Binding request on an existing local candidate of the started, open agent, from a source that resolves, carrying `Y`'s
+OWN current role. -/
+theorem C05_conflictDelivery_iff (s : Sys) (k : Nat) (Y : Bool) :
+    conflictDelivery s k Y = true ↔
+      ∃ d now la src m l tb, s.inflight[k]? = some d ∧ s.blocked.contains (d.src, d.dst) = false ∧
+        s.owner (s.unmapped d.dst) = some Y ∧ evOf s d = .inbound now la src m ∧
+        (s.agent Y).closed = false ∧ (s.agent Y).started = true ∧ (s.agent Y).localByAddr la = some l ∧
+        AuthRequest (s.agent Y) m ∧ (resolveSource (s.agent Y) l src m).2.2.isSome = true ∧
+        m.role = some ((s.agent Y).controlling, tb) := by
+  unfold conflictDelivery
+  cases hk : s.inflight[k]? with
+  | none => simp
+  | some d =>
+    simp only [Bool.and_eq_true, Bool.not_eq_true', beq_iff_eq, conflictEv_iff, Option.some.injEq]
+    constructor
+    · rintro ⟨⟨hb, ho⟩, now, la, src, m, l, tb, hev, hrest⟩
+      exact ⟨d, now, la, src, m, l, tb, rfl, hb, ho, hev, hrest⟩
+    · rintro ⟨d', now, la, src, m, l, tb, rfl, hb, ho, hev, hrest⟩
+      exact ⟨⟨hb, ho⟩, now, la, src, m, l, tb, hev, hrest⟩
+
+/-- **A processed role conflict puts the receiver in its assigned role.**  In every reachable state, when agent `Y`
+processes an authenticated request carrying `Y`'s own role (delivery, `keep = false`, or duplication, `keep = true`, of
+datagram `k`), `Y` is afterwards controlling iff it holds the larger tie-breaker — whatever its role was before — and
+the other agent is untouched.  So: both controlling — the smaller tie-breaker switches when it receives, the larger
+keeps; both controlled — the larger switches when it receives, the smaller keeps (the keeper answers 487:
+`C05_not_a_check`). -/
+theorem C05_conflict_resolves (s0 : Sys) (hinit : Sys.Init s0) (hne : s0.a.tieBreaker ≠ s0.b.tieBreaker)
+    (evs : List SysEv) (k : Nat) (keep : Bool) (Y : Bool)
+    (hd : Y = W s0 ∨ NoLoopbackCreds s0 evs Y)
+    (hc : conflictDelivery (Sys.runs s0 evs) k Y = true) :
+    StartedAs ((Sys.run (Sys.runs s0 evs) (delivery k keep)).agent Y) (Y == W s0) ∧
+    (Sys.run (Sys.runs s0 evs) (delivery k keep)).agent (!Y) = (Sys.runs s0 evs).agent (!Y) := by
+  rw [run_delivery]
+  exact conflict_resolves s0 hinit hne evs k keep Y hd hc
+
+/-- **… and keeps it there for ever**: any schedule `evs1`, then agent `Y` processes an authenticated request carrying
+its own role, then ANY schedule `evs2`: in the final state `Y` is started and controlling iff it holds the larger
+tie-breaker.  Hence after each agent has processed one such request (from a same-role state: after the agent in the
+wrong role has), the roles are opposite for ever. -/
+theorem C05_conflict_resolves_forever (s0 : Sys) (hinit : Sys.Init s0) (hne : s0.a.tieBreaker ≠ s0.b.tieBreaker)
+    (evs1 : List SysEv) (k : Nat) (keep : Bool) (evs2 : List SysEv) (Y : Bool)
+    (hd : Y = W s0 ∨ NoLoopbackCreds s0 (evs1 ++ delivery k keep :: evs2) Y)
+    (hc : conflictDelivery (Sys.runs s0 evs1) k Y = true) :
+    StartedAs ((Sys.runs s0 (evs1 ++ delivery k keep :: evs2)).agent Y) (Y == W s0) :=
+  conflict_resolves_forever s0 hinit hne evs1 k keep evs2 Y hd hc
+
+/-- the agent that is in the wrong role when both are in role `r`: both controlling — `L`; both controlled — `W` -/
+def mustSwitch (s0 : Sys) (r : Bool) : Bool := if r then L s0 else W s0
+
+/-- **Same-role states resolve.**  Reachable state, both agents started and in the same role.  After the agent in the
+wrong role has processed ONE authenticated same-role request of the other, `W` is controlling and `L` controlled. -/
+theorem C05_same_role_start_resolves (s0 : Sys) (hinit : Sys.Init s0) (hne : s0.a.tieBreaker ≠ s0.b.tieBreaker)
+    (evs : List SysEv) (k : Nat) (keep : Bool)
+    (hsa : (Sys.runs s0 evs).a.started = true) (hsb : (Sys.runs s0 evs).b.started = true)
+    (hsame : (Sys.runs s0 evs).a.controlling = (Sys.runs s0 evs).b.controlling)
+    (hcred : (Sys.runs s0 evs).a.controlling = true → NoLoopbackCreds s0 evs (L s0))
+    (hc : conflictDelivery (Sys.runs s0 evs) k (mustSwitch s0 (Sys.runs s0 evs).a.controlling) = true) :
+    StartedAs ((Sys.run (Sys.runs s0 evs) (delivery k keep)).agent (W s0)) true ∧
+    StartedAs ((Sys.run (Sys.runs s0 evs) (delivery k keep)).agent (L s0)) false := by
+  rw [run_delivery, ← right_W, ← right_L]
+  exact same_role_resolves s0 hinit hne evs k keep hsa hsb hsame hcred hc
+
+/-- **Opposite roles (larger tie-breaker controlling) are absorbing** under every schedule. -/
+theorem C05_opposite_is_absorbing (s0 : Sys) (hinit : Sys.Init s0) (hne : s0.a.tieBreaker ≠ s0.b.tieBreaker)
+    (evs1 evs2 : List SysEv) (hno : NoLoopbackCreds s0 (evs1 ++ evs2) (L s0))
+    (h1 : StartedAs ((Sys.runs s0 evs1).agent (W s0)) true) (h2 : StartedAs ((Sys.runs s0 evs1).agent (L s0)) false) :
+    StartedAs ((Sys.runs (Sys.runs s0 evs1) evs2).agent (W s0)) true ∧
+    StartedAs ((Sys.runs (Sys.runs s0 evs1) evs2).agent (L s0)) false := by
+  rw [← right_W, ← right_L] at *
+  exact opposite_absorbing s0 hinit hne evs1 evs2 hno h1 h2
+
+/-- **Two agents started in the same role with distinct tie-breakers end in opposite roles under every message
+ordering.**  ANY schedule `evs1` reaching a state with both agents started and in the same role; the agent in the wrong
+role processes one authenticated same-role request; then ANY schedule `evs2` (further conflicting requests, stale
+requests from before a switch, duplicates, restarts, closes …).  In the final state `W` is controlling, `L` controlled. -/
+theorem C05_same_role_ends_opposite (s0 : Sys) (hinit : Sys.Init s0) (hne : s0.a.tieBreaker ≠ s0.b.tieBreaker)
+    (evs1 : List SysEv) (k : Nat) (keep : Bool) (evs2 : List SysEv)
+    (hno : NoLoopbackCreds s0 (evs1 ++ delivery k keep :: evs2) (L s0))
+    (hsa : (Sys.runs s0 evs1).a.started = true) (hsb : (Sys.runs s0 evs1).b.started = true)
+    (hsame : (Sys.runs s0 evs1).a.controlling = (Sys.runs s0 evs1).b.controlling)
+    (hc : conflictDelivery (Sys.runs s0 evs1) k (mustSwitch s0 (Sys.runs s0 evs1).a.controlling) = true) :
+    StartedAs ((Sys.runs s0 (evs1 ++ delivery k keep :: evs2)).agent (W s0)) true ∧
+    StartedAs ((Sys.runs s0 (evs1 ++ delivery k keep :: evs2)).agent (L s0)) false := by
+  rw [← right_W, ← right_L]
+  exact same_role_ends_opposite s0 hinit hne evs1 k keep evs2 hno hsa hsb hsame hc
+
+/-- **From a same-role state the roles are never wrongly oriented**, under every schedule and whether or not any
+conflicting request is ever delivered: later the agents are either still both in that role, or `W` is controlling and
+`L` controlled.  (`L` controlling with `W` controlled is unreachable.) -/
+theorem C05_same_role_never_misoriented (s0 : Sys) (hinit : Sys.Init s0) (hne : s0.a.tieBreaker ≠ s0.b.tieBreaker)
+    (evs1 evs2 : List SysEv)
+    (hsa : (Sys.runs s0 evs1).a.started = true) (hsb : (Sys.runs s0 evs1).b.started = true)
+    (hsame : (Sys.runs s0 evs1).a.controlling = (Sys.runs s0 evs1).b.controlling)
+    (hcred : (Sys.runs s0 evs1).a.controlling = false → NoLoopbackCreds s0 (evs1 ++ evs2) (L s0)) :
+    (((Sys.runs (Sys.runs s0 evs1) evs2).agent (W s0)).controlling = (Sys.runs s0 evs1).a.controlling ∧
+     ((Sys.runs (Sys.runs s0 evs1) evs2).agent (L s0)).controlling = (Sys.runs s0 evs1).a.controlling) ∨
+    (StartedAs ((Sys.runs (Sys.runs s0 evs1) evs2).agent (W s0)) true ∧
+     StartedAs ((Sys.runs (Sys.runs s0 evs1) evs2).agent (L s0)) false) := by
+  rw [← right_W, ← right_L]
+  exact same_role_never_misoriented s0 hinit hne evs1 evs2 hsa hsb hsame hcred
+
+/-! ## Non-vacuity and the witness for the hypothesis -/
+
+namespace SysExample
+/-- A holds the larger tie-breaker: `W = false` (A), `L = true` (B) -/
+def s0 : Sys := { a := { localUfrag := "ua", localPwd := "pa", tieBreaker := 5 },
+                  b := { tag := 1, localUfrag := "ub", localPwd := "pb", tieBreaker := 3 }, hasB := true }
+def hostA : Cand := { uid := 0, ty := 1, net := 0, addr := 16, prio := 100 }
+def hostB : Cand := { uid := 0, ty := 1, net := 0, addr := 32, prio := 100 }
+/-- signalling and both starts in roles `ca` / `cb`; each start sends the first check (16 → 32, then 32 → 16) -/
+def setup (ca cb : Bool) : List SysEv :=
+  [.api false (.addLocal 0 hostA), .api true (.addLocal 0 hostB),
+   .api false (.addRemote 0 hostB), .api true (.addRemote 0 hostA),
+   .api false (.start 0 ca "ub" "pb"), .api true (.start 0 cb "ua" "pa")]
+/-- what follows the resolving delivery: the remaining deliveries, a tick, more deliveries, a one-sided restart -/
+def rest : List SysEv :=
+  [.deliver 0, .advance 200000000, .deliver 0, .deliver 0, .dup 0, .deliver 0, .deliver 0,
+   .api true (.restart 300000000 "ub2" "pb2"), .advance 400000000, .deliver 0, .deliver 0]
+/-- B is told that its peer is itself: its own address as remote candidate, its own credentials as remote credentials -/
+def selfSched : List SysEv :=
+  [.api true (.addLocal 0 hostB), .api true (.addRemote 0 hostB), .api true (.start 0 false "ub" "pb")]
+end SysExample
+
+open SysExample in
+/-- both CONTROLLING: hypotheses of `C05_same_role_start_resolves` / `C05_same_role_ends_opposite` hold (the agent that
+must switch is B = `L`, datagram 0 is A's check), and the model run indeed ends with A controlling, B controlled —
+directly after the delivery and after the rest of the schedule. -/
+example : Sys.Init s0 ∧ s0.a.tieBreaker ≠ s0.b.tieBreaker ∧ W s0 = false ∧ L s0 = true
+    ∧ NoLoopbackCreds s0 (setup true true ++ delivery 0 false :: rest) (L s0)
+    ∧ (Sys.runs s0 (setup true true)).a.started = true ∧ (Sys.runs s0 (setup true true)).b.started = true
+    ∧ (Sys.runs s0 (setup true true)).a.controlling = true ∧ (Sys.runs s0 (setup true true)).b.controlling = true
+    ∧ mustSwitch s0 true = true ∧ conflictDelivery (Sys.runs s0 (setup true true)) 0 true = true
+    ∧ (Sys.run (Sys.runs s0 (setup true true)) (delivery 0 false)).a.controlling = true
+    ∧ (Sys.run (Sys.runs s0 (setup true true)) (delivery 0 false)).b.controlling = false
+    ∧ (Sys.runs s0 (setup true true ++ delivery 0 false :: rest)).a.controlling = true
+    ∧ (Sys.runs s0 (setup true true ++ delivery 0 false :: rest)).b.controlling = false := by
+  refine ⟨⟨rfl, rfl, rfl, rfl, rfl, rfl, rfl, rfl, rfl, rfl, rfl, rfl, rfl, rfl, rfl⟩, ?_⟩
+  decide
+
+open SysExample in
+/-- both CONTROLLED: the agent that must switch is A = `W`; datagram 1 is B's check.  Delivering datagram 0 first (A's
+check to B: B keeps and answers 487, nothing resolves yet — `C05_same_role_never_misoriented` applies) and B's check
+afterwards also ends with A controlling, B controlled. -/
+example : mustSwitch s0 false = false ∧ NoLoopbackCreds s0 (setup false false ++ delivery 1 false :: rest) (L s0)
+    ∧ (Sys.runs s0 (setup false false)).a.started = true ∧ (Sys.runs s0 (setup false false)).b.started = true
+    ∧ (Sys.runs s0 (setup false false)).a.controlling = false ∧ (Sys.runs s0 (setup false false)).b.controlling = false
+    ∧ conflictDelivery (Sys.runs s0 (setup false false)) 1 false = true
+    ∧ (Sys.run (Sys.runs s0 (setup false false)) (delivery 1 false)).a.controlling = true
+    ∧ (Sys.run (Sys.runs s0 (setup false false)) (delivery 1 false)).b.controlling = false
+    ∧ (Sys.runs s0 (setup false false ++ delivery 1 false :: rest)).a.controlling = true
+    ∧ (Sys.runs s0 (setup false false ++ delivery 1 false :: rest)).b.controlling = false
+    -- the keeper first: still both controlled, a 487 in flight; then the switcher
+    ∧ conflictDelivery (Sys.runs s0 (setup false false)) 0 true = true
+    ∧ (Sys.runs s0 (setup false false ++ [.deliver 0])).a.controlling = false
+    ∧ (Sys.runs s0 (setup false false ++ [.deliver 0])).b.controlling = false
+    ∧ conflictDelivery (Sys.runs s0 (setup false false ++ [.deliver 0])) 0 false = true
+    ∧ (Sys.runs s0 (setup false false ++ [.deliver 0, .deliver 0])).a.controlling = true
+    ∧ (Sys.runs s0 (setup false false ++ [.deliver 0, .deliver 0])).b.controlling = false := by
+  decide
+
+open SysExample in
+/-- `C05_inflight_roles_name_sender` is about something: after the both-controlling start two checks are in flight, the
+first carries ICE-CONTROLLING with A's tie-breaker 5 and is keyed with A's remote password, the second B's 3 / `"pa"`. -/
+example : (Sys.runs s0 (setup true true)).inflight.map (fun d => match d.p with
+      | .stun m => (m.role, m.key) | .data _ => (none, none))
+    = [(some (true, 5), some "pb"), (some (true, 3), some "pa")]
+    ∧ remotePwds s0 (setup true true) false = ["", "pb"] ∧ localPwds s0 (setup true true) false = ["pa"] := by
+  decide
+
+open SysExample in
+/-- the hypotheses of `C05_orientation_stable` / `C05_opposite_is_absorbing` are satisfiable -/
+example : StartedAs ((Sys.runs s0 (setup true false)).agent (W s0)) true
+    ∧ StartedAs ((Sys.runs s0 (setup true false)).agent (L s0)) false
+    ∧ NoLoopbackCreds s0 (setup true false ++ rest) (L s0)
+    ∧ StartedAs ((Sys.runs (Sys.runs s0 (setup true false)) rest).agent (L s0)) false := by
+  decide
+
+open SysExample in
+/-- **The hypothesis `NoLoopbackCreds` cannot be dropped** (the full statement of `C05_orientation_stable` for `L` without
+it is false in the model): B (tie-breaker 3 < 5) is started CONTROLLED with its own address as remote candidate and its
+own credentials as remote credentials; its first check 32 → 32 is delivered back to it, authenticates, carries
+ICE-CONTROLLED with tie-breaker 3; `3 < 3` is false, B switches to controlling. -/
+theorem C05_orientation_stable_needs_NoLoopbackCreds_witness :
+    ¬ (∀ (s0 : Sys) (evs1 evs2 : List SysEv), Sys.Init s0 → s0.a.tieBreaker ≠ s0.b.tieBreaker →
+        StartedAs ((Sys.runs s0 evs1).agent (L s0)) false →
+        StartedAs ((Sys.runs (Sys.runs s0 evs1) evs2).agent (L s0)) false) := by
+  intro h
+  have := h s0 selfSched [.deliver 0] ⟨rfl, rfl, rfl, rfl, rfl, rfl, rfl, rfl, rfl, rfl, rfl, rfl, rfl, rfl, rfl⟩
+    (by decide) (by decide)
+  revert this
+  decide
+
+open SysExample in
+/-- … and on that witness the hypothesis is indeed violated, while the delivery is a role conflict in the sense of
+`conflictDelivery`; `W`'s half of the theorem needs no hypothesis. -/
+example : ¬ NoLoopbackCreds s0 (selfSched ++ [.deliver 0]) (L s0)
+    ∧ conflictDelivery (Sys.runs s0 selfSched) 0 true = true := by
+  decide
 
 end IceProps.C05
